@@ -405,6 +405,8 @@ def run_check(pid: str, tier: str, base_seed: int, jobs: int) -> int:
 
 
 def write_evidence(mod, pid, tier, seed, total, n_sys, wall_s, known_hit, n_viol, jobs, params):
+    if os.environ.get("VERIF_NO_EVIDENCE"):
+        return  # self-test sweeps must not overwrite the evidence of the registered run
     os.makedirs(EVIDENCE_DIR, exist_ok=True)
     level = getattr(mod, "LEVEL", "exploration")
     ev = {
